@@ -671,7 +671,8 @@ def main():
     jobs += [('b', ('decode', n)) for n in lens] + [('b', ('encode', 72))]
     chain = [1, 2, 3, 4, 5, 6]
     # the wide transaction (vout 1, 2, 256 to A) in block 2 of a chain, threshold 3: pages before / after block 2 becomes stable
-    for pa in ([4, 4, 6], [4, 4, 4, 6], [3, 5], [4] * 9, [2, 2, 7], [3, 3, 4, 5, 6, 7]):
+    wide = [[4, 4, 6], [4, 4, 4, 6], [3, 5], [2, 2, 7]] + ([[4] * 9, [3, 3, 4, 5, 6, 7]] if tier != 'quick' else [])
+    for pa in wide:
         jobs.append(('p', (chain, {2: [HL.WIDE]}, 3, 'A', 1, 0, tuple(pa))))
     jobs.append(('p', (chain, {2: [HL.WIDE]}, 3, 'A', 2, 0, (4, 6))))
     jobs.append(('p', (chain, {2: [HL.WIDE]}, 3, 'A', 1, 2, (4, 4, 6))))
@@ -689,9 +690,10 @@ def main():
             first = r.randint(1, n)
             rest = sorted(r.randint(first, n) for _ in range(r.randint(0, 3)))
             jobs.append(('p', (parents, content, r.choice([1, 2, 2]), r.choice(HL.ADDRS), r.choice([1, 1, 2]), r.choice([0, 0, 1, 2]), tuple([first] + rest))))
-        jobs.append(('t', (parents, content, r.choice(HL.ADDRS))))
+        if tier != 'quick' or len(parents) <= 2:
+            jobs.append(('t', (parents, content, r.choice(HL.ADDRS))))
     rep.cov['bounds'] = dict(page_blob_lengths=lens, histories=len(hists), tree_blocks=N, page_size='1 or 2 in kernel p (the 1000 of the endpoint is decided in kernel w and run natively)',
-                             schedules='first request after a sampled arrival step, following requests after sampled later steps, remaining pages on the final state (VERIF_SEED); 8 fixed schedules around the stabilisation of a block holding outputs with vout 1, 2, 256',
+                             schedules='first request after a sampled arrival step, following requests after sampled later steps, remaining pages on the final state (VERIF_SEED); %d fixed schedules around the stabilisation' % (len(wide) + 2) + ' of a block holding outputs with vout 1, 2, 256',
                              threshold='1, 2 or 3, difficulty 1',
                              outside='upgrades between pages (C09); page requests while an ingestion is paused (C08 decides that readers are unaffected); histories outside the sample')
     rep.cov['functions_encoded'] = ['Page::{to_bytes,from_bytes}', 'OutPoint::{to_bytes,from_bytes}', 'get_utxos_private', 'get_utxos_internal', 'get_utxos_from_chain', 'get_stability_count',
